@@ -196,7 +196,7 @@ class C15(Prop):
     level_note = ('Don\'t-care zone: files named exactly .pyc/.pyo, orphans below non-identifier or node_modules '
                   'directories and orphans reachable through a symlink only; content is compared by sha256 and mtime_ns.')
     rule = ('Hypothesis trees (depth <=3; per directory 0..4 plain files + 0..4 bytecode shapes out of 12), roots '
-            'one/dup/nested/sub-only, optional symlinked directory, options none/-k/--usecompiled, optional extra '
+            'one/dup/nested/sub-only, optional symlinked directory (named zqlink, __pycache__, .git, CVS or zq-link), options none/-k/--usecompiled, optional extra '
             '--ignore_dir. Non-trivial = the tree has >=1 true orphan, >=1 protected .pyc/.pyo and >=1 look-alike.')
     assumptions = ('PYTHONDONTWRITEBYTECODE=1 in the workers (the interpreter itself creates no __pycache__)',)
     parts = (Cleanup(),)
